@@ -123,6 +123,24 @@ theorem canceled_status_must_not_be_exempt :
 example : (streamProxy exempt true true true (fun (ms : List Nat) _ => (ms.take 2, some ⟨15, 7⟩)) [1, 2, 3]).clientGot = [1, 2] ∧
     (streamProxy exempt true true true (fun (ms : List Nat) _ => (ms.take 2, some ⟨15, 7⟩)) [1, 2, 3]).clientStatus = some ⟨15, 7⟩ := by decide
 
+/-- the forwarder lets the io.EOF of its first `SendMsg` fall through to `RecvMsg` (regenerated
+condition of that `if`). -/
+theorem first_send_eof_is_not_final : Gen.Proxy.firstSendErrorCond = "err != nil && err != io.EOF" := by decide
+
+/-- **a backend that ends the call before the first message is forwarded**: the client still gets
+the backend's own status (an OK status being the OK status) — for every status. -/
+theorem early_backend_status_reaches_client (st : Status) (hok : st.code = 0 → st = Status.ok) :
+    earlyEnd exempt false st = st := by
+  unfold earlyEnd
+  simp only [Bool.false_eq_true, if_false]
+  by_cases h : st.code = 0
+  · rw [hok h]; decide
+  · have : asErr st = .status st := by simp [asErr, h]
+    simp [this, exempt, isStreamError]
+
+/-- contrast — the code before fix `0aba31b` returned that io.EOF: every early status became Unknown. -/
+theorem eof_as_final_loses_the_status : earlyEnd exempt true ⟨9, 7⟩ ≠ ⟨9, 7⟩ := by decide
+
 end Larking.Props.C10
 
 #print axioms Larking.Props.C10.translator_complete
@@ -133,3 +151,6 @@ end Larking.Props.C10
 #print axioms Larking.Props.C10.unary_transparent
 #print axioms Larking.Props.C10.empty_stream_needs_half_close
 #print axioms Larking.Props.C10.canceled_status_must_not_be_exempt
+#print axioms Larking.Props.C10.first_send_eof_is_not_final
+#print axioms Larking.Props.C10.early_backend_status_reaches_client
+#print axioms Larking.Props.C10.eof_as_final_loses_the_status
